@@ -49,6 +49,7 @@ type FuncContract struct {
 	File      string
 	Ghosts    []string
 	SafetyOff map[string]string // safety class -> reason (not claimed)
+	InlineCalls []string        // callees to inline here even though they have a contract
 	Unclaimed map[string]string // obligation class (e.g. "post:foo") -> reason it is not claimed
 	Alphabet  string            // for bounded search
 	MaxLen    int
@@ -93,7 +94,7 @@ type Contracts struct {
 
 var clauseKeywords = map[string]bool{"requires": true, "ensures": true, "loop": true, "modifies": true, "serves": true,
 	"use": true, "inline": true, "trusted": true, "status:": true, "pure": true, "induction": true, "trigger": true,
-	"nosafety": true, "alphabet": true, "maxlen": true, "decreases": true, "ih": true, "unclaimed": true}
+	"nosafety": true, "alphabet": true, "maxlen": true, "decreases": true, "ih": true, "unclaimed": true, "inlinecall": true}
 
 func loadContracts(dirs map[string]string) (*Contracts, error) {
 	cs := &Contracts{Funcs: map[string]*FuncContract{}, Specs: map[string]*SpecFunc{}, Lemmas: map[string]*Lemma{}}
@@ -402,6 +403,12 @@ func (cs *Contracts) parseFunc(pkg, file string, e *rawEntry) error {
 				return fmt.Errorf("line %d: nosafety needs a class", c.line)
 			}
 			fc.SafetyOff[f[1]] = strings.Join(f[2:], " ")
+		case "inlinecall":
+			for _, m := range strings.Split(strings.TrimSpace(strings.TrimPrefix(c.text, "inlinecall")), ",") {
+				if m = strings.TrimSpace(m); m != "" {
+					fc.InlineCalls = append(fc.InlineCalls, m)
+				}
+			}
 		case "unclaimed":
 			f := strings.Fields(c.text)
 			if len(f) < 3 {
